@@ -94,10 +94,7 @@ def run_scenario(seed, obs, n_reads=25, n_writes=12):
         try:
             drv = T.open_driver(LogixDriver, "10.0.0.1", tp)
         except Exception as e:        # noqa: BLE001
-            if sc.note["big_ids"]:
-                obs.note("open() FAILED: symbol list continued from an instance id > 65535 (reserved logical format 0x27)")
-            else:
-                obs.note("open() FAILED", f"seed {seed}: {e!r} / {e.__cause__!r}")
+            obs.note("open() FAILED", f"seed {seed} big_ids={sc.note['big_ids']}: {e!r} / {e.__cause__!r}")
             return
         obs.note("scenarios opened")
         v = RV.view(tp)
@@ -123,7 +120,7 @@ def run_scenario(seed, obs, n_reads=25, n_writes=12):
             obs.note("READ RESULT COUNT", f"seed {seed}: {len(results)} for {len(reqs)} requests")
         singles = [(r, drv.read(r)) for r in reqs[:6]]
         for e in T.bad_events(tp.log(mark)):
-            if not (e["ev"] == "malformed" and e["why"] == 8 and sc.note["big_ids"]):
+            if not (e["ev"] == "malformed" and e["why"] == 8 and False):
                 obs.note(f"bad event during VALID reads: {e['ev']} svc={e.get('service')} why={e.get('why')}", f"seed {seed}: {e}")
         # invalid requests mixed with valid ones
         inval = S.gen_invalid_requests(rng, sc, 4)
@@ -139,16 +136,14 @@ def run_scenario(seed, obs, n_reads=25, n_writes=12):
                     obs.note("invalid read answered falsy")
                 continue
             if not res:
-                if uses_big_instance(sc, req, drv):
-                    obs.note("valid read FAILED: instance id > 65535 sent as reserved logical format 0x27",
-                             f"seed {seed}: {req}: {res.error}")
-                else:
-                    obs.note("VALID READ FAILED", f"seed {seed} rev {drv.revision_major}: {req}: {res.error}", keep=10)
+                obs.note("VALID READ FAILED", f"seed {seed} rev {drv.revision_major} big={uses_big_instance(sc, req, drv)}: {req}: {res.error}", keep=10)
                 continue
             okv = RV.same_value(exp["value"], res.value)
             okt = res.type == exp["type"]
             if okv and okt:
                 obs.note("reads correct")
+                if uses_big_instance(sc, req, drv):
+                    obs.note("reads correct through a symbol instance id > 65535")
             else:
                 if not okv:
                     obs.note("READ VALUE DIFFERS", f"seed {seed}: {req}: got {res.value!r} expected {RV.to_python(exp['value'])!r}", keep=10)
@@ -173,10 +168,7 @@ def run_scenario(seed, obs, n_reads=25, n_writes=12):
             evs = tp.log(m0)
             applied = [e for e in evs if e["ev"] == "app" and e["tag"] == 1]
             if not res:
-                if uses_big_instance(sc, req, drv):
-                    obs.note("valid write FAILED: instance id > 65535 sent as reserved logical format 0x27")
-                else:
-                    obs.note("VALID WRITE FAILED", f"seed {seed}: {req} = {RV.to_python(val)!r}: {res.error}", keep=10)
+                obs.note("VALID WRITE FAILED", f"seed {seed} big={uses_big_instance(sc, req, drv)}: {req} = {RV.to_python(val)!r}: {res.error}", keep=10)
                 continue
             after = {i: RV.dump_mem(tp, i) for i in sc.mem}
             if after[inst] != image:
@@ -200,8 +192,24 @@ def run_scenario(seed, obs, n_reads=25, n_writes=12):
             if not rb or e2 is None or not RV.same_value(e2["value"], rb.value):
                 obs.note("READ AFTER WRITE DIFFERS", f"seed {seed}: {req}: {rb!r}")
             sc.mem[inst] = after[inst]
+        # ---- strings longer than the capacity: truncated (C02)
+        for g in [g for g in sc.data_tags() if g["kind"] == "s" and not g["dims"] and not S._hidden_tag(g)
+                  and sc.is_string(sc.template(g["code"]))][:2]:
+            cap = sc.template(g["code"])["members"][1]["arr"]
+            name = sc.full_name(g)
+            for n in (cap + 1, cap + rng.randint(2, 9)):
+                text = "".join(chr(rng.randint(65, 90)) for _ in range(n))
+                inst, image = RV.refwrite(tp, name, ("s", text))
+                res = drv.write((name, text))
+                if not res:
+                    obs.note("OVER-CAPACITY STRING WRITE FAILED", f"seed {seed}: {name} capacity {cap}, {n} chars: {res.error}")
+                elif RV.dump_mem(tp, inst) != image:
+                    obs.note("OVER-CAPACITY STRING: MEMORY DIFFERS FROM REFERENCE", f"seed {seed}: {name} capacity {cap}, {n} chars")
+                else:
+                    obs.note("over-capacity string writes truncated correctly")
+                sc.mem[inst] = RV.dump_mem(tp, inst)
         for e in T.bad_events(tp.log(mark)):
-            if not (e["ev"] == "malformed" and e["why"] == 8 and sc.note["big_ids"]):
+            if not (e["ev"] == "malformed" and e["why"] == 8 and False):
                 obs.note(f"bad event during writes: {e['ev']} svc={e.get('service')} why={e.get('why')}", f"seed {seed}: {e}")
         drv.close()
         obs.c["seconds in scenarios"] += int(time.time() - t0)
@@ -266,6 +274,21 @@ def sweep(obs, large, sizes, tname="SINT", frag=()):
                 evs = tp.log(m0)
                 bad = T.bad_events(evs)
                 key = f"sweep conn={conn} {tname} {mode} write"
+                fr = [e for e in evs if e["ev"] == "request" and e["service"] == 0x53]
+                if fr:
+                    pos, tiled = 0, True
+                    for e in fr:
+                        tl = 4 if e["data"][:2] == b"\xa0\x02" else 2
+                        off = int.from_bytes(e["data"][tl + 2:tl + 6], "little")
+                        tiled = tiled and off == pos
+                        pos = off + len(e["data"]) - tl - 6
+                    if not tiled or pos != n * esize:
+                        obs.note(f"{key}: FRAGMENTS DO NOT TILE THE VALUE", f"{n} elements")
+                    obs.note(f"{key}: fragmented transfers")
+                    if any(e["ev"] == "app" and e["tag"] == 3 for e in evs):
+                        obs.note(f"{key}: transfers with fragments that split an element (accepted, EvApp 3)")
+                if any(e["ev"] == "request" and len(e["path"]) + len(e["data"]) + 4 > conn for e in evs):
+                    obs.note(f"{key}: REQUEST LARGER THAN THE CONNECTION", f"{n} elements")
                 if bad:
                     obs.note(f"{key}: BAD EVENT {bad[0]['ev']} why={bad[0].get('why')}", f"{n} elements ({n * esize} bytes): {bad[0]}", keep=8)
                 if not res or RV.dump_mem(tp, g["inst"]) != image:
@@ -504,7 +527,13 @@ def main():
                 break
             sizes = list(range(centre - 40, centre + 13)) + [2 * centre + 3, 3 * centre + 1]
             sweep(obs, large, sizes, "SINT")
-            sweep(obs, large, [centre // 4 - 6 + k for k in range(0, 9)] + [centre // 2 + 1], "DINT", frag=(7,))
+            for tn, es in (("DINT", 4), ("REAL", 4), ("LINT", 8), ("INT", 2)):
+                if time.time() - t0 > 540:
+                    obs.note("sweep cut short (time budget)")
+                    break
+                c = centre // es
+                ns = sorted(set([c + k for k in range(-8, 4)] + [2 * c + k for k in (-7, -6, -5, -4, -3, -2, -1, 0, 1)] + [3 * c + 1]))
+                sweep(obs, large, ns, tn, frag=(7,) if tn == "DINT" else ())
     print(f"== target_logix_smoke: {time.time() - t0:.0f}s")
     obs.report()
     print("CALIBRATION", "OK" if ok else "FAILED")
